@@ -97,6 +97,11 @@ func c03Iter(bs []c03Batch) obiiter.IBioSequence {
 
 func c03Drain(it obiiter.IBioSequence) []c03Batch {
 	var out []c03Batch
+	mode := c03Mode // "" unless a `mslow` case is running
+	if mode == "late" {
+		time.Sleep(2 * time.Millisecond)
+	}
+	rank := 0
 	for it.Next() {
 		b := it.Get()
 		cb := c03Batch{order: b.Order()}
@@ -104,6 +109,8 @@ func c03Drain(it obiiter.IBioSequence) []c03Batch {
 			cb.ids = append(cb.ids, c03Id(s))
 		}
 		out = append(out, cb)
+		c03Pace(mode, rank)
+		rank++
 	}
 	return out
 }
@@ -399,6 +406,7 @@ func c03Shuffle(rng *rand.Rand, bs []c03Batch) []c03Batch {
 }
 
 func (c03) Gen(rng *rand.Rand, tier string, emit func(string)) {
+	c03GenR3First(tier, emit)
 	// corpus
 	for _, c := range []string{
 		"sort | 1:3,4 0: 2:5", "sort | ", "sort | 2:1 1:2 0:3", "sort | 1:1 2:2",
@@ -723,6 +731,7 @@ func (c03) Gen(rng *rand.Rand, tier string, emit func(string)) {
 		}
 	}
 	c03GenMore(rng, tier, emit)
+	c03GenR3(rng, tier, emit)
 }
 
 func c03Contract(bs []c03Batch) bool {
@@ -835,6 +844,9 @@ func (c03) Exec(c string) (string, []Fail) {
 	}
 	if !inContract {
 		stat("outside-contract")
+	}
+	if r, f, ok := c03ExecR3(c, head, parts, streams, inContract, fail); ok {
+		return r, append(fails, f...)
 	}
 	// checks shared by the order-preserving single-output combinators
 	checkOut := func(out []c03Batch, want []int, deliveredInOrder bool) {
@@ -1465,6 +1477,9 @@ func (c03) Exec(c string) (string, []Fail) {
 			outs := map[int][]c03Batch{}
 			var wg sync.WaitGroup
 			for key := range dist.News() {
+				if c03Mode != "" { // mslow: the client is slow to open the new class output
+					time.Sleep(300 * time.Microsecond)
+				}
 				it, err := dist.Outputs(key)
 				if err != nil {
 					return "err"
@@ -1518,6 +1533,7 @@ func (c03) Exec(c string) (string, []Fail) {
 				if b.Order() != rank {
 					fail("numbering", "batch at rank %d has number %d", rank, b.Order())
 				}
+				c03Pace(c03Mode, rank)
 				rank++
 				sb = append(sb, fmt.Sprintf("%d:%s", b.Order(), strings.Join(ps, ",")))
 			}
@@ -1588,6 +1604,33 @@ func (c03) Exec(c string) (string, []Fail) {
 			for _, b := range out {
 				orders = append(orders, b.order)
 				recs = append(recs, b.ids...)
+			}
+			// each pooled stream is read by ONE goroutine, which numbers its batches one after the other: along the
+			// arrival order of a stream the new numbers increase (non-empty batches are recognised by their first record)
+			numOf := map[int]int{}
+			for _, b := range out {
+				if len(b.ids) > 0 {
+					numOf[b.ids[0]] = b.order
+				}
+			}
+			for si, s := range streams {
+				if len(streams) == 1 { // Pool() of one stream is that stream itself: numbers kept
+					break
+				}
+				last := -1
+				for _, b := range s {
+					if len(b.ids) == 0 {
+						continue
+					}
+					o, ok := numOf[b.ids[0]]
+					if ok && o <= last && inContract {
+						fail("stream-order", "stream %d: its batch starting with record %d got number %d after number %d", si, b.ids[0], o, last)
+						break
+					}
+					if ok {
+						last = o
+					}
+				}
 			}
 			sort.Ints(orders)
 			sort.Ints(recs)
